@@ -481,7 +481,7 @@ def cases(ctx):
         if ctx.mine(i):
             yield "t0", {"msgs": rec[k:k + 100]}
         i += 1
-    for k in range(ctx.share(600 if quick else 4000)):
+    for k in range(ctx.share(600 if quick else 12000)):
         ms = []
         for _ in range(100):
             df = rng.choice((20, 21, 20, 21, 17, rng.randrange(32)))
@@ -492,15 +492,15 @@ def cases(ctx):
         yield "t0", {"msgs": ms}
     regs = ["BDS10", "BDS17", "BDS20", "BDS30", "BDS40", "BDS44", "BDS45", "BDS50", "BDS60"]
     for reg in regs:
-        for rep in range(8 if quick else 32):
+        for rep in range(8 if quick else 64):
             if ctx.mine(i):
-                yield "t2", {"reg": reg, "n": 800 if quick else 2000}
+                yield "t2", {"reg": reg, "n": 800 if quick else 4000}
             i += 1
-        for rep in range(8 if quick else 32):
+        for rep in range(8 if quick else 64):
             if ctx.mine(i):
                 yield "t3", {"reg": reg, "n": 60 if quick else 150}
             i += 1
-    for k in range(32 if quick else 256):
+    for k in range(32 if quick else 512):
         if ctx.mine(i):
-            yield "t4", {"n": 1500 if quick else 3000}
+            yield "t4", {"n": 1500 if quick else 6000}
         i += 1
